@@ -79,8 +79,6 @@ private theorem loadParameters_canonical (narrow : Rat → Rat) (ps : List (Stri
   obtain ⟨hn, hd⟩ := hall p hp
   simp [hlook p hp, loadTensor, hn, hd, Out.bind]
 
-private theorem checkHyp_fix (h : Hyp) (hc : checkHyp h = .ok h) : checkHyp h = .ok h := hc
-
 /-! ### property theorems -/
 
 /-- **End of fit.** After `fit` the population variables in `model.state` are the prior modes of the final
@@ -112,22 +110,25 @@ theorem pop_prior_mode_invariant {V : Type} (E : Ext V) (cs : List (Call V)) (w 
 theorem load_pop_prior_mode (narrow : Rat → Rat) (f : FileD) (m : Model) (h : load narrow f = .ok m) :
     m.pop = priorMode m.params := by
   unfold load at h
-  cases hk : Kind.ofName (parseSettings f).name with
-  | none => simp [hk] at h
-  | some k =>
-    simp only [hk] at h
-    cases hh : checkHyp (parseSettings f).hyp with
-    | err e => simp [hh, Out.bind] at h
-    | ok hy =>
-      simp only [hh, Out.bind] at h
-      cases hd : hy.dim <;> cases hs : hy.sourceDim <;> simp only [hd, hs] at h <;> try (simp at h)
-      rename_i d s
-      cases hp : loadParameters narrow (paramSpec k d s hy.scalarNoise hy.nClusters hy.nbEvents)
-          (parseSettings f).parameters with
-      | err e => simp [hp] at h
-      | ok ps =>
-        simp only [hp, Out.ok.injEq] at h
-        subst h; rfl
+  simp only at h
+  split at h
+  · cases h
+  · split at h
+    · cases h
+    · rename_i k _ _
+      cases hh : checkHyp (parseSettings f).hyp with
+      | err e => simp [hh, Out.bind] at h
+      | ok hy =>
+        simp only [hh, Out.bind] at h
+        split at h
+        · rename_i d s _ _
+          cases hp : loadParameters narrow (paramSpec k d s hy.scalarNoise hy.nClusters hy.nbEvents)
+              (parseSettings f).parameters with
+          | err e => simp [hp] at h
+          | ok ps =>
+            simp only [hp, Out.ok.injEq] at h
+            subst h; rfl
+        · cases h
 
 /-- **Round trip, full statement that is provable as the code stands** (`roundtrip_any_name` below shows the
     guard on the name is necessary).  A model whose parameters have the DAG's names, shapes and single precision
@@ -145,7 +146,9 @@ theorem roundtrip_params (narrow : Rat → Rat) (m : Model) (hc : m.canonical na
     | none => simp [hd, hs] at hc
     | some s =>
       simp only [hd, hs, Bool.and_eq_true, beq_iff_eq, List.all_eq_true] at hc
-      obtain ⟨⟨hspec, hall⟩, hhyp⟩ := hc
+      obtain ⟨⟨⟨hspec, hall⟩, hhyp⟩, hfeat⟩ := hc
+      have hfeat' : m.hyp.features.isNone = false := by
+        cases hf : m.hyp.features <;> simp [hf] at hfeat ⊢
       have hnd : (m.params.map Prod.fst).Nodup := by
         have := paramSpec_nodup m.kind d s m.hyp.scalarNoise m.hyp.nClusters m.hyp.nbEvents
         rw [← hspec] at this
@@ -159,7 +162,7 @@ theorem roundtrip_params (narrow : Rat → Rat) (m : Model) (hc : m.canonical na
       have hload := loadParameters_canonical narrow m.params hnd hall'
       rw [hspec] at hload
       refine ⟨⟨m.kind, m.kind.toName, m.hyp, m.params, priorMode m.params⟩, ?_, rfl, rfl, rfl, rfl, rfl⟩
-      simp [load, parseSettings, toDict, hn, ofName_toName, hhyp, Out.bind, hd, hs, hload]
+      simp [load, parseSettings, toDict, hn, ofName_toName, hhyp, Out.bind, hd, hs, hload, hfeat']
 
 /-- **Re-saving reproduces the file**: under the same hypotheses with the instance name *equal* to the kind
     (`ModelSettings` lower-cases the stored name and `load` names the new object after its kind), saving the
@@ -175,8 +178,8 @@ theorem roundtrip_resave_identical (narrow : Rat → Rat) (m : Model) (hc : m.ca
 
 /- Full-strength statement wanted by the property (any instance name):
 
-     theorem roundtrip_any_name (m : Model) (hc : m.canonical narrow) :
-         ∃ m', load narrow (toDict m) = .ok m' ∧ m'.params = m.params ∧ …
+   | theorem roundtrip_any_name (m : Model) (hc : m.canonical narrow) :
+   |     ∃ m', load narrow (toDict m) = .ok m' ∧ m'.params = m.params ∧ m'.hyp = m.hyp
 
    It is false as the code stands (finding F7): `to_dict` stores the instance name under "name" and
    `ModelSettings` / `model_factory` read that entry as the model kind. -/
@@ -205,7 +208,7 @@ theorem load_unknown_name (narrow : Rat → Rat) (f : FileD) (h : Kind.ofName f.
     load narrow f = .err .value := by
   simp [load, parseSettings, h]
 
-/-- F17, refutation of byte-identical re-saving for double-precision parameters: a model whose `tau_mean` is the
+/-- F21, refutation of byte-identical re-saving for double-precision parameters: a model whose `tau_mean` is the
     double `80.44985490161451` (what a joint or mixture fit produces) loads, but the reloaded model holds the
     nearest float32 and saving it writes a different file. -/
 theorem resave_double_precision_counterexample :
